@@ -473,6 +473,23 @@ Theorem C13_hals_pass_objective_gap : forall (UtM UtU : list (list R)) (r n : na
 Proof. exact pass_objective_gap. Qed.
 Print Assumptions C13_hals_pass_objective_gap.
 
+(* ... and, for a well-conditioned problem (mu |d|^2 <= d'UtU d + 2 ridge |d|^2), the DISTANCE of W = pass(V) to a KKT point X is controlled
+   by the step (round 6): mu/2 |W[:,j] - X[:,j]|^2 <= sum_k D_k (W[k,j] + X[k,j]) *)
+Theorem C13_hals_pass_distance : forall (UtM UtU : list (list R)) (r n : nat) (o : @hopts R),
+  wfm r r UtU -> wfm r n UtM -> h_nz o = false ->
+  (forall i j, Gf UtU i j = Gf UtU j i) -> (forall e, 0 <= quad r (Gf UtU) e) -> 0 <= l2of o ->
+  (forall k, (k < r)%nat -> Gf UtU k k <> 0 -> 0 < Gf UtU k k + 2 * l2of o) ->
+  (forall k, (k < r)%nat -> Gf UtU k k <> 0) -> h_eps o = 0 ->
+  forall (V : list (list R)) (j : nat) (X : list (list R)) (mu : R), wfm r n V -> (j < n)%nat ->
+  (forall d : nat -> R, mu * rsum r (fun i => (d i)^2) <= quad r (Gf UtU) d + 2 * l2of o * rsum r (fun i => (d i)^2)) ->
+  (forall i, (i < r)%nat -> 0 <= mget Rops X i j /\ 0 <= qp_grad r (Gf UtU) (bf UtM j) (l1of o) (l2of o) (colf X j) i /\
+                            mget Rops X i j * qp_grad r (Gf UtU) (bf UtM j) (l1of o) (l2of o) (colf X j) i = 0) ->
+  let W := hals_pass Rops UtM UtU n o V in
+  mu / 2 * rsum r (fun k => (mget Rops W k j - mget Rops X k j)^2)
+  <= rsum r (fun k => rsum r (fun l => Rabs (Gf UtU k l) * Rabs (mget Rops W l j - mget Rops V l j)) * (mget Rops W k j + mget Rops X k j)).
+Proof. exact pass_distance. Qed.
+Print Assumptions C13_hals_pass_distance.
+
 (* tol = 0 (the protocol under which the harness runs hals_nnls to convergence; exact=True up to its 1e-16): the per-pass
    error is a sum of squares, the rule `rec_error < tol * rec_error0` never fires and the loop performs exactly n_iter_max
    passes -- any nonzero_rows setting *)
